@@ -7,6 +7,7 @@ import NiVerif.Gen.TimeDelta
 import NiVerif.Gen.DateTime
 import NiVerif.Gen.BtDtypes
 import NiVerif.Model.Record
+import NiVerif.Model.BtElem
 import NiVerif.Proofs.Bits
 
 namespace Props.C02
@@ -116,19 +117,7 @@ theorem cvi_layout :
       = some ([("lsb", 0, "uint64"), ("msb", 8, "int64")], 16) := by
   constructor <;> decide
 
-/-- what the array classes store for an element: `to_tuple().to_cvi()` written into the record -/
-def arrStore (t : Int) : List Int :=
-  let c := Gen.TimeValueTuple.to_cvi (to_tuple t).1 (to_tuple t).2
-  Model.Record.encodeCvi c.1 c.2
-
-/-- what indexing returns: `.item()` → `from_cvi` → `from_tuple` -/
-def arrLoad (bytes : List Int) : Except PyErr Int :=
-  match Model.Record.decodeCvi bytes with
-  | none => .error .ValueError
-  | some (l, m) =>
-    let tv := Gen.TimeValueTuple.from_cvi l m
-    from_tuple tv.1 tv.2
-
+open Model.BtElem in
 /-- The record bytes are: fraction (ticks mod 2^64) little-endian at offset 0, whole seconds
     (floor(ticks/2^64), two's complement) little-endian at offset 8. -/
 theorem record_bytes (t : Int) :
@@ -137,6 +126,7 @@ theorem record_bytes (t : Int) :
   py_norm
   rfl
 
+open Model.BtElem in
 theorem record_roundtrip (t : Int) (h : InI128 t) : arrLoad (arrStore t) = .ok t := by
   have hr := to_tuple_range t h
   have hs := to_tuple_spec t
